@@ -4,8 +4,10 @@ import (
 	"fmt"
 	"go/token"
 	"go/types"
+	"os"
 	"sort"
 	"strings"
+	"time"
 
 	"golang.org/x/tools/go/ssa"
 
@@ -23,19 +25,23 @@ func init() {
 
 func runC16(c *engine.Ctx) {
 	li := engine.AnalyzeLocks(c.P)
-	c16Maps(c, li)
-	c16AllocSizes(c)
-	c16Channels(c, li)
-	c16Handlers(c)
-	c16Encodable(c)
-	c16LockBalance(c, li)
-	c16ErrorPathDeref(c)
-	c16Panics(c)
-	c16LockOrder(c, li, "R11")
-	c16RetryBound(c, "R12")
-	c16IndexBounds(c, "R13")
-	checkDroppedErrors(c, "R14", "*")
-	checkLostErrors(c, "R15", "*")
+	steps := []struct {
+		name string
+		f    func()
+	}{
+		{"maps", func() { c16Maps(c, li) }}, {"alloc", func() { c16AllocSizes(c) }}, {"channels", func() { c16Channels(c, li) }},
+		{"handlers", func() { c16Handlers(c) }}, {"encodable", func() { c16Encodable(c) }}, {"lockbalance", func() { c16LockBalance(c, li) }},
+		{"errderef", func() { c16ErrorPathDeref(c) }}, {"panics", func() { c16Panics(c) }}, {"lockorder", func() { c16LockOrder(c, li, "R11") }},
+		{"retry", func() { c16RetryBound(c, "R12") }}, {"index", func() { c16IndexBounds(c, "R13") }},
+		{"dropped", func() { checkDroppedErrors(c, "R14", "*") }}, {"lost", func() { checkLostErrors(c, "R15", "*") }}, {"stale", func() { checkStaleErrReturns(c, "R16", "*") }},
+	}
+	for _, s := range steps {
+		t0 := time.Now()
+		s.f()
+		if os.Getenv("FRPSA_TIMING") == "1" {
+			fmt.Fprintf(os.Stderr, "C16 step %-12s %v\n", s.name, time.Since(t0))
+		}
+	}
 }
 
 func isMutexType(t types.Type) bool {
